@@ -708,6 +708,12 @@ impl ActorCell {
         self.inner.tree.get_children().len()
     }
 
+    /// `link` with its result: `false` = the link was refused (verification hook)
+    #[cfg(feature = "verif")]
+    pub fn verif_try_link(&self, supervisor: ActorCell) -> bool {
+        self.try_link(supervisor)
+    }
+
     /// Raw admission word `(closed, marker_sent, count)` (verification hook)
     #[cfg(feature = "verif")]
     pub fn verif_admission_word(&self) -> (bool, bool, usize) {
